@@ -16,7 +16,7 @@ def sh(cmd, **kw):
 sh(f"git -C /repo worktree remove --force {wt}")
 r = sh(f"git -C /repo worktree add -q {wt} HEAD")
 assert r.returncode == 0, r.stderr
-env = dict(os.environ, PYTHONPATH=wt)
+env = dict(os.environ, PYTHONPATH=":".join([wt] + [f"{wt}/pdks/{d}" for d in ("Sky130", "Gf180", "Asap7")]))
 ran = {}
 try:
     d0 = sh(f"cd {wt} && /venv/bin/python {dst}/demo.py", env=env)
